@@ -12,7 +12,8 @@ MinLen(s) == IF s.lsz = 0 THEN s.max ELSE IF s.lens # {} THEN CHOOSE x \in s.len
 RECURSIVE MinBody(_, _)
 MinBody(M, k) == IF k > Len(M.mand) THEN <<>>
                  ELSE LET s == M.mand[k] IN LenBytes(s.lsz, MinLen(s)) \o Zeros(MinLen(s)) \o MinBody(M, k + 1)
-MinimalMsg(M, b1) == (IF M.fam = "GSM" THEN <<b1, 0, 0, M.mt>> ELSE <<b1, 0, M.mt>>) \o MinBody(M, HdrLen(M) + 1)
+\* x2, x3: the header octets routing does not look at (security header / PDU session id, PTI)
+MinimalMsg(M, b1, x2, x3) == (IF M.fam = "GSM" THEN <<b1, x2, x3, M.mt>> ELSE <<b1, x2, M.mt>>) \o MinBody(M, HdrLen(M) + 1)
 
 Route(entry, inp) ==
   LET fam == IF entry = "gmm" THEN "GMM" ELSE IF entry = "gsm" THEN "GSM"
